@@ -122,7 +122,7 @@ class BroadcastChannelBySockets(BroadcastChannel):
             If `block=False` and there is no available message
         """
         t_start = timer()
-        while block:
+        while True:
             for remote_node_name, socket in self._sockets.items():
                 try:
                     msg = socket.recv(block=False)
@@ -130,6 +130,9 @@ class BroadcastChannelBySockets(BroadcastChannel):
                     continue
                 else:
                     return remote_node_name, msg
+            if not block:
+                # Every socket was polled once and none had a message
+                break
             if block and timeout is not None:
                 t_now = timer()
                 t_elapsed = t_now - t_start
